@@ -159,6 +159,7 @@ func genClocks(r *hx.Rand) ([]int64, string) {
 }
 
 type connResult struct {
+	Extra  int // distinct messages on the wire beyond the number of requests
 	Clocks []int64
 	IDs    []int64
 	Kinds  []bool
@@ -223,6 +224,12 @@ func runConn(seed uint64, workers, opsPer int) connResult {
 	)
 	stop := make(chan struct{})
 	peerDone := make(chan struct{})
+	badSalt := 0 // refuse every badSalt-th content frame once with bad_server_salt (0 = never)
+	if r.Chance(2, 3) {
+		badSalt = r.Range(1, 4)
+	}
+	nContent := 0
+	refused := map[int64]bool{}
 	handle := func(raw []byte) {
 		f, err := env.Decode(raw)
 		if err != nil {
@@ -242,6 +249,14 @@ func runConn(seed uint64, workers, opsPer int) connResult {
 			_ = env.Reply(&proto.Result{RequestMessageID: f.MsgID, Result: pb.Copy()})
 		}
 		if f.TypeID == contentType {
+			// every few requests are first refused with bad_server_salt: Invoke re-sends them once, and
+			// the re-sent frame is part of the wire order like any other
+			nContent++
+			if !refused[f.MsgID] && badSalt > 0 && nContent%badSalt == 0 {
+				refused[f.MsgID] = true
+				_ = env.Reply(&mt.BadServerSalt{BadMsgID: f.MsgID, BadMsgSeqno: int(f.SeqNo), ErrorCode: 48, NewServerSalt: 1000 + int64(nContent)})
+				return
+			}
 			var pb bin.Buffer
 			_ = (&mt.RPCAnswerUnknown{}).Encode(&pb) // not a pong: handleResult routes pongs to the ping map
 			if err := env.Reply(&proto.Result{RequestMessageID: f.MsgID, Result: pb.Copy()}); err != nil {
@@ -310,13 +325,23 @@ func runConn(seed uint64, workers, opsPer int) connResult {
 		res.Err = perr
 	}
 	sort.SliceStable(frames, func(i, j int) bool { return frames[i].MsgID < frames[j].MsgID })
-	for _, f := range frames {
+	for i, f := range frames {
+		if i > 0 && f.MsgID == frames[i-1].MsgID {
+			// a second transmission of the same message (the bad_server_salt re-send): same id, so it
+			// must be the same message in every other respect
+			if p := frames[i-1]; res.Err == "" && (f.SeqNo != p.SeqNo || f.TypeID != p.TypeID || !refused[f.MsgID]) {
+				res.Err = fmt.Sprintf("msg_id %d was written twice: seq_no %d / %d, type %#x / %#x, refused with bad_server_salt: %v", f.MsgID, p.SeqNo, f.SeqNo, p.TypeID, f.TypeID, refused[f.MsgID])
+			}
+			continue
+		}
 		res.IDs = append(res.IDs, f.MsgID)
 		res.Kinds = append(res.Kinds, f.TypeID == contentType || f.TypeID == mt.RPCDropAnswerRequestTypeID)
 		res.Seqs = append(res.Seqs, int64(f.SeqNo))
 	}
-	if res.Err == "" && len(frames) != total {
-		res.Err = fmt.Sprintf("%d frames written for %d requests", len(frames), total)
+	if res.Err == "" && len(res.IDs) != total {
+		// more distinct messages than requests: e.g. a re-send that took a new msg_id; judged by
+		// the wire oracle below (seq_no in msg_id order), not here
+		res.Extra = len(res.IDs) - total
 	}
 	return res
 }
@@ -601,6 +626,8 @@ func main() {
 		}
 		if sig, desc := oracleSeqs(res.Kinds, res.Seqs); sig != "" {
 			c.Violate(sig, "Conn frames in msg_id order: "+desc, sh, ix, rp)
+		} else if res.Extra != 0 {
+			c.Violate("frame-count", fmt.Sprintf("Conn wrote %d distinct messages more than the %d requests issued", res.Extra, workers*ops), sh, ix, rp)
 		}
 	}
 
